@@ -67,6 +67,19 @@ pub fn replay_case<H: HB>(c: &Case) -> Result<(), String> {
             return crate::post::from_iter_differential::<H>(c.double, &c.universe, seq, true).map(|_| ()).map_err(|e| e.1);
         }
     }
+    if c.probe.as_deref() == Some("big-equality-hashers") {
+        if let Root::FromVec(pairs) = &c.root {
+            return if c.double {
+                crate::props::big_equality::<DPQ<StdRandom>, DPQ<StdRandom>, DPQ<CollideAll>>(pairs, |a, b| a == b, |a, b| a == b, |a, b| b == a)
+                    .and_then(|_| crate::props::big_equality::<DPQ<Seeded>, DPQ<Seeded>, DPQ<FixedSip>>(pairs, |a, b| a == b, |a, b| a == b, |a, b| b == a))
+                    .and_then(|_| crate::props::big_equality::<DPQ<FnvBuild>, DPQ<FnvBuild>, DPQ<StdRandom>>(pairs, |a, b| a == b, |a, b| a == b, |a, b| b == a))
+            } else {
+                crate::props::big_equality::<PQ<StdRandom>, PQ<StdRandom>, PQ<CollideAll>>(pairs, |a, b| a == b, |a, b| a == b, |a, b| b == a)
+                    .and_then(|_| crate::props::big_equality::<PQ<Seeded>, PQ<Seeded>, PQ<FixedSip>>(pairs, |a, b| a == b, |a, b| a == b, |a, b| b == a))
+                    .and_then(|_| crate::props::big_equality::<PQ<FnvBuild>, PQ<FnvBuild>, PQ<StdRandom>>(pairs, |a, b| a == b, |a, b| a == b, |a, b| b == a))
+            };
+        }
+    }
     if c.probe.as_deref() == Some("big-equality") {
         if let Root::FromVec(pairs) = &c.root {
             return if c.double {
